@@ -289,8 +289,10 @@ func TestC07(t *testing.T) {
 					continue
 				}
 				capExec := 1 << 30
-				if n >= 4 && !r.Thorough() {
-					capExec = 2500
+				if n >= 4 {
+					// N = 4: capped per plan (quick: 2500; thorough: 400000 - only the block-range plans whose
+					// all-skipped batches are relaunched exceed it; enumerations_complete says which finished)
+					capExec = r.Pick(2500, 400000)
 				}
 				plan := plan
 				r.Inflight("handoff", plan)
